@@ -49,46 +49,70 @@ class DocumentMapper:
         self._build_map()
 
     def _build_map(self):
+        """
+        Builds the linear index. The separator logic mirrors ingest.py exactly:
+        blocks are joined by two newlines, rows by one newline, cells by " | ", parts by two
+        newlines; empty tables and empty parts contribute nothing (not even a separator).
+        """
         current_offset = 0
         self.spans = []
         self.full_text = ""
 
+        parts_emitted = 0
         for part in iter_document_parts(self.doc):
-            current_offset = self._map_blocks(part, current_offset)
-
-            # Add part separator if needed, or rely on block separators
-            if self.spans and self.spans[-1].text != "\n\n":
+            mark = self._mark()
+            if parts_emitted > 0:
                 self._add_virtual_text("\n\n", current_offset, None)
                 current_offset += 2
+            text_start = len(self.full_text)
+            new_offset = self._map_blocks(part, current_offset)
+            if len(self.full_text) == text_start:
+                # Empty part: ingest skips it entirely
+                current_offset = self._rollback(mark)
+                continue
+            current_offset = new_offset
+            parts_emitted += 1
 
-        # Cleanup trailing newlines
-        while self.spans and self.spans[-1].text == "\n\n":
-            self.spans.pop()
-            self.full_text = self.full_text[:-2]
+    def _mark(self) -> Tuple[int, int]:
+        return len(self.spans), len(self.full_text)
+
+    def _rollback(self, mark: Tuple[int, int]) -> int:
+        n_spans, n_text = mark
+        del self.spans[n_spans:]
+        self.full_text = self.full_text[:n_text]
+        return n_text
 
     def _map_blocks(self, container, offset: int) -> int:
         current = offset
+        blocks_emitted = 0
 
         for item in iter_block_items(container):
             if isinstance(item, Paragraph):
-                # FIX: Include paragraph prefix (e.g. "# ") in the mapper
+                if blocks_emitted > 0:
+                    self._add_virtual_text("\n\n", current, item)
+                    current += 2
+
                 prefix = get_paragraph_prefix(item)
                 if prefix:
                     self._add_virtual_text(prefix, current, item)
                     current += len(prefix)
 
                 current = self._map_paragraph_content(item, current)
-
-                # Separator between paragraphs
-                self._add_virtual_text("\n\n", current, item)
-                current += 2
+                blocks_emitted += 1
 
             elif isinstance(item, Table):
-                current = self._map_table(item, current)
-                # Separator after table
-                if self.spans and self.spans[-1].text != "\n\n":
+                mark = self._mark()
+                if blocks_emitted > 0:
                     self._add_virtual_text("\n\n", current, None)
                     current += 2
+                text_start = len(self.full_text)
+                new_current = self._map_table(item, current)
+                if len(self.full_text) == text_start:
+                    # Empty table text: ingest drops the block (and its separator)
+                    current = self._rollback(mark)
+                    continue
+                current = new_current
+                blocks_emitted += 1
 
         return current
 
@@ -164,6 +188,10 @@ class DocumentMapper:
                 run_parts: List[Tuple[str, str, Optional[Run]]] = []
 
                 text = get_run_text(item)
+
+                if not text:
+                    # ingest ignores runs without text entirely (no markers, no metadata)
+                    continue
 
                 if "\n" in text and (prefix or suffix):
                     parts = text.split("\n")
@@ -394,36 +422,10 @@ class DocumentMapper:
         return "", ""
 
     def _build_merged_meta_block(self, states_list) -> str:
-        change_lines = []
-        comment_lines = []
-        seen_sigs = set()
+        # Single source of truth for the metadata block: the reader's renderer.
+        from adeu.ingest import _build_merged_meta_block as _reader_meta_block
 
-        for ins_map, del_map, comments_set in states_list:
-            for map_obj in (ins_map, del_map):
-                for uid, meta in map_obj.items():
-                    sig = f"Chg:{uid}"
-                    if sig not in seen_sigs:
-                        auth = meta.author or "Unknown"
-                        change_lines.append(f"[{sig}] {auth}")
-                        seen_sigs.add(sig)
-
-            sorted_ids = sorted(list(comments_set))
-            for c_id in sorted_ids:
-                if c_id not in self.comments_map:
-                    continue
-                sig = f"Com:{c_id}"
-                if sig not in seen_sigs:
-                    data = self.comments_map[c_id]
-                    header = f"[{sig}] {data['author']}"
-                    if data["date"]:
-                        short_date = data["date"].split("T")[0]
-                        header += f" @ {short_date}"
-                    if data["resolved"]:
-                        header += "(RESOLVED)"
-                    comment_lines.append(f"{header}: {data['text']}")
-                    seen_sigs.add(sig)
-
-        return "\n".join(change_lines + comment_lines)
+        return _reader_meta_block(states_list, self.comments_map)
 
     def _add_virtual_text(self, text: str, offset: int, context_paragraph: Optional[Paragraph]):
         span = TextSpan(
